@@ -605,10 +605,25 @@ def replay_c08(d, case):
     fields, limit, serial = case['args']
     with contextlib.redirect_stdout(io.StringIO()):
         try:
-            mnd = Mandoline(os.path.join(d, 'plt'), fields=list(fields), limit_level=limit, serial=serial, verbose=0)
-            if case.get('again'):
-                mnd.slice(fformat='return')
-            out = mnd.slice(fformat='return')
+            if case.get('cli'):
+                import sys
+                from amr_kitchen.mandoline import cli as mcli
+                os.chdir(d)
+                old_argv = sys.argv
+                sys.argv = list(case['cli'])
+                try:
+                    mcli.main()
+                finally:
+                    sys.argv = old_argv
+                out = dict(np.load(os.path.join(d, 'flat.npz'), allow_pickle=True))
+                out = {k: (v.item() if getattr(v, 'shape', None) == () else v) for k, v in out.items()}
+            else:
+                mnd = Mandoline(os.path.join(d, 'plt'), fields=list(fields), limit_level=limit, serial=serial, verbose=0)
+                if case.get('again'):
+                    mnd.slice(fformat='return')
+                out = mnd.slice(fformat='return')
+        except SystemExit as e:
+            return True, 'exited with %r' % (e.code,)
         except Exception as e:
             return True, 'raised %s: %s' % (type(e).__name__, e)
     for attempt in range(2):
